@@ -28,7 +28,7 @@ ASSUMPTIONS = [
     "the Nproc=1 mesh of the same gmsh model (rebuilt, gmsh is deterministic in one thread) is the global reference; "
     "the global K, C, M, F of EasyFEA are the reference of the per-part systems",
     "partitions where gmsh returns fewer non-empty parts than asked are counted, not failed",
-    "meshes <= ~400 main elements, Nproc <= 12 (or = Ne for Ne <= 16)",
+    "meshes <= ~400 main elements, Nproc <= 12 (or = Ne for Ne <= 40)",
 ]
 LEVEL_TEXT = ("generated meshes of every surface/volume element type incl. mixed QUAD+TRI x part counts: exact set algebra "
               "of owners, ghost layer (harness-computed from the global connectivity), numbering, coordinates, tags and "
@@ -88,7 +88,7 @@ def partition_cases(draw):
 
 
 def pick_nproc(case, Ne: int) -> int:
-    if case.get("full") and Ne <= 16:
+    if case.get("full") and Ne <= 40:
         return Ne
     return max(1, min(int(case["nproc"]), Ne))
 
@@ -418,7 +418,7 @@ def check_row_complete(case, rec):
     v = rng.uniform(-1, 1, u.size)
     dofs_fix = np.asarray(sg.Bc_dofs_nodes(nodes_fix, unknowns), int)
     Rg = np.zeros(u.size)
-    Rg[dofs_fix] = np.asarray(sg.Calc_Reaction(dofs_fix), float)
+    Rg[dofs_fix] = np.asarray(Kg[dofs_fix] @ u).ravel()  # harness: global reaction = K_global[dofs] u
     rec.require(np.all(np.isfinite(u)) and np.abs(u).max() > 0, "global_solution", "global solve failed", **sig0)
     mats_g = dict(K=Kg, C=Cg, M=Mg)
     absK = abs(Kg)
@@ -704,7 +704,7 @@ def check_merge(case, rec):
 
 
 SUBS = [
-    Sub("partition_sets", check_partition_sets, gen=partition_cases, quick=70, thorough=400, shards=8),
-    Sub("row_complete", check_row_complete, gen=row_cases, quick=40, thorough=250, shards=8),
-    Sub("merge", check_merge, gen=merge_cases, quick=80, thorough=500, shards=6),
+    Sub("partition_sets", check_partition_sets, gen=partition_cases, quick=150, thorough=250, shards=8),
+    Sub("row_complete", check_row_complete, gen=row_cases, quick=80, thorough=150, shards=8),
+    Sub("merge", check_merge, gen=merge_cases, quick=200, thorough=400, shards=6),
 ]
